@@ -107,6 +107,7 @@ def run(ctx, rep):
         incs = [(b, B, bi, t, o) for (b, B, bi, t, cls, o) in atomics.sites(F) if cls == model.ATOMIC_RMW_ADD and atomics.receiver_is_count(F, B, t)]
         if len(incs) != 1:
             rep.bad("R-FUNNEL", "increment-sites", "expected exactly one increment site of the count word in the crate, found %d (%s): every clone path must go through the one guarded increment" % (len(incs), [x[0]["key"] for x in incs]), None, tag)
+        work = []
         for b, B, bi, t, _o in incs:
             key = b["key"]
             loc = F.loc(b, t["span"])
@@ -116,6 +117,25 @@ def run(ctx, rep):
                 rep.bad("R-OVFGUARD", key + "/addend", "the increment does not add the constant 1", loc, tag)
             else:
                 rep.ok("R-OVFGUARD", key + "/addend", cfg=tag)
+            # the increment may sit in a private helper that hands the value the increment returned - unchanged - to its callers
+            # (`fn acquire(&self) -> usize { self.count.fetch_add(1, Relaxed) }`): the guard is then judged in each caller, with
+            # the call of the helper standing for the increment
+            o0 = B.origin_local(0)
+            raw = o0.get("kind") == "call" and o0["term"] is t or (t["dest"]["l"] == 0 and not t["dest"]["p"])
+            has_switch_on_it = any(bl["term"]["k"] == "switch" and (atomics.compare_with_const(B, bl["term"]) or {}).get("src") is not None and B.origin_local(atomics.compare_with_const(B, bl["term"])["src"]).get("term") is t for bl in b["blocks"])
+            callers = []
+            if raw and not has_switch_on_it and not balance.is_api(F, b):
+                for cb in F.body_list:
+                    CB = None
+                    for cbi, cbl in enumerate(cb["blocks"]):
+                        ct = cbl["term"]
+                        if ct["k"] == "call" and atomics.callee_of(ct) == key:
+                            CB = CB or cfg.Body(cb)
+                            callers.append((cb, CB, cbi, ct))
+            work += callers if callers else [(b, B, bi, t)]
+        for b, B, bi, t in work:
+            key = b["key"]
+            loc = F.loc(b, t["span"])
             # guard: a branch comparing the value RETURNED by the increment with a constant near isize::MAX
             dl = t["dest"]["l"]
             guard = None
